@@ -328,3 +328,31 @@ def r5(ctx):
     from .c04 import r2 as c04r2
 
     c04r2(ctx)
+
+
+@rule("C18.R12", "the formatter and the warning categories read record.msg: every logging call passes the finished text (no lazy %-arguments)")
+def r12(ctx):
+    """Formatter.format prints `record.msg` and MetaWarning.inspect matches its regex against `record.msg`: neither
+    calls getMessage(), so a call `log.warning("... %s", x)` reaches the log file and the category tests as the
+    template, without the file / name it is about.  Who-may-call rule over the whole package."""
+    repo = ctx.repo
+    lg = repo.mod("_detail.logging")
+    raw = [n for n in ast.walk(lg.tree) if isinstance(n, ast.Attribute) and n.attr == "msg" and isinstance(n.ctx, ast.Load)]
+    formatted = [n for n in ast.walk(lg.tree) if isinstance(n, ast.Call) and isinstance(n.func, ast.Attribute) and n.func.attr == "getMessage"]
+    if not raw:
+        ctx.ok("_detail.logging:reads-record.msg", f"no reader of record.msg ({len(formatted)} getMessage() calls): lazy arguments are formatted")
+        ctx.floor(1)
+        return
+    levels = {"debug": 1, "info": 1, "warning": 1, "warn": 1, "error": 1, "critical": 1, "exception": 1, "log": 2}
+    n = 0
+    for m in [None]:
+        for f in repo.all_functions():
+            for c in f.calls():
+                if not (isinstance(c.func, ast.Attribute) and c.func.attr in levels and isinstance(c.func.value, ast.Name) and c.func.value.id in ("log", "logger", "logging", "_log")):
+                    continue
+                n += 1
+                key = f"{f.key}:log-call:{c.func.attr}:{u(c.args[levels[c.func.attr] - 1])[:40] if len(c.args) >= levels[c.func.attr] else ''}"
+                lazy = len(c.args) > levels[c.func.attr] or any(isinstance(a, ast.Starred) for a in c.args)
+                ctx.check(not lazy, key, f"`{u(c)[:90]}` passes %-arguments, but the log-file formatter and the warning categories read record.msg (line {raw[0].lineno} of _detail/logging.py), not getMessage(): the message is printed and classified as the bare template and no longer names what was dropped", f.loc(c))
+    ctx.stats["log_calls"] = n
+    ctx.floor(max(1, int(n * 0.6)) if n < 20 else 12)
